@@ -291,7 +291,8 @@ CLAIMED['C05'] = dict(
          'representers, so load(represent v, T) = v holds with no precondition, for every class model; the '
          'same for objects of simple classes (plain, no hooks, no registered bases or subclasses, with or '
          'without _yatiml_extra holding plain data) holding plain data, floats, paths, enum members, string-likes, Optional positions, '
-         'Unions of members told apart by node kind, Any positions or '
+         'Unions of members told apart by node kind, Any positions, leaf-class objects declared as a '
+         'registered ancestor (single-subclass chains) or '
          'such objects to any depth (C05_simple_objects_roundtrip: '
          'uniqueness of recognition at every node is derived, not assumed). '
          'The text layer is assumption A-text. On the real code load(dumps(v)) must be '
